@@ -94,9 +94,9 @@ def corrupt(rng, expr, pos):
             return None
         return op, t
     if op == "bad-direction":
-        return op, expr + " " + rng.choice(["SIDEWAYS", "UP", "DESCENDING", "D", "asc desc"])
+        return op, expr + " " + rng.choice(["SIDEWAYS", "UP", "DESCENDING", "D", "asc desc", "de\u017fc", "a\u017fc", "DE\u017fC", "de\u0455c", "\uff24\uff25\uff33\uff23"])
     if op == "bad-direction-eq":
-        return op, expr + "=" + rng.choice(["SIDEWAYS", "UP", "DES"])
+        return op, expr + "=" + rng.choice(["SIDEWAYS", "UP", "DES", "de\u017fc", "A\u017fC"])
     if op == "glued-direction":
         if not expr.endswith(")"):
             return None
